@@ -35,6 +35,8 @@ pub enum Op {
     Span(u8),
     Clone,
     Flatten,
+    /// `add_sibling_alts_for_unknown_field` with a name far from every generated one: nothing observable changes
+    Alts,
 }
 
 #[derive(Clone, Debug, Serialize, Deserialize, Hash, PartialEq, Eq)]
@@ -300,6 +302,11 @@ pub fn build(n: &Node, pool: &Pool) -> (Error, M) {
                 e = e.flatten();
                 m.flatten();
             }
+            Op::Alts => {
+                // (what generated code calls on the outcome of a flatten member; the name is similar to nothing, so
+                // no suggestion appears or changes: count, order, paths, messages and spans stay as they are)
+                e = e.add_sibling_alts_for_unknown_field(&["qqqqqqqqqqqq"]);
+            }
         }
     }
     (e, m)
@@ -343,6 +350,7 @@ fn op() -> impl Strategy<Value = Op> {
         4 => any::<u8>().prop_map(Op::Span),
         1 => Just(Op::Clone),
         1 => Just(Op::Flatten),
+        1 => Just(Op::Alts),
     ]
 }
 
@@ -378,11 +386,12 @@ pub fn node_from(d: &mut vmodel::dec::D, depth: usize) -> Node {
     fn ops(d: &mut vmodel::dec::D) -> Vec<Op> {
         let n = d.below(4);
         (0..n)
-            .map(|_| match d.weighted(&[5, 4, 1, 1]) {
+            .map(|_| match d.weighted(&[5, 4, 1, 1, 1]) {
                 0 => Op::At(nm(d)),
                 1 => Op::Span(d.byte()),
                 2 => Op::Clone,
-                _ => Op::Flatten,
+                3 => Op::Flatten,
+                _ => Op::Alts,
             })
             .collect()
     }
